@@ -1,0 +1,7 @@
+//go:build !verif
+
+package bttest
+
+// verifYield marks a point at which verification builds (tag "verif") may
+// force a schedule. It is empty in normal builds.
+func verifYield(point string) {}
